@@ -175,6 +175,7 @@ def p2_extractall(chk):
 def run(chk):
     p1_extract_member(chk)
     p2_extractall(chk)
+    p3_validate_wiki_id(chk)
     bounded(chk)
     chk.assumptions += [
         "POSIX os.path: join/normpath/abspath/dirname contracts as stated in pyvc/models.py (validated against posixpath by the bounded stand-in)",
@@ -278,3 +279,42 @@ def bounded(chk):
                        failures, samples)
     chk.extra["os_path_model_validated_on"] = mc
     chk.extra["bounded_rejected_members"] = rejected
+
+
+# ----------------------------------------------------------------------------- wiki.MultiEnvironment._validate_wiki_id: ids joined to the extraction directory
+def p3_validate_wiki_id(chk):
+    """make_wiki opens <extraction dir>/<wikiident> for every article of a multi-wiki archive; the identifier comes from
+    the archive's metabook.json.  Contract of the validator: it returns normally only for a non-empty identifier without
+    '/' and without '..' (so the joined path names a direct sub-directory); everything else raises WikiIdValidationError."""
+    WIKI = "mwlib/core/wiki.py"
+    ex = Explorer()
+    fn = ex.function(WIKI, "MultiEnvironment._validate_wiki_id")
+
+    def harness(I):
+        wid = I.sym_str("wikiident")
+        out = ex.run_function(I, fn, [PObj("MultiEnvironment", {}), wid, PObj("article", {})])
+        safe = z3.And(z3.Length(wid.z) > 0, z3.Not(z3.Contains(wid.z, z3.StringVal("/"))), z3.Not(z3.Contains(wid.z, z3.StringVal(".."))))
+        if out.returned:
+            I.oblige("accepted_identifier_names_a_direct_subdirectory", safe)
+        else:
+            I.oblige("raises_WikiIdValidationError_only", out.raised("WikiIdValidationError"))
+            I.oblige("rejected_only_if_unsafe", z3.Not(safe))
+    chk.prove("wiki.MultiEnvironment._validate_wiki_id", harness, ex, targets=[fn], replay=replay_wiki_id)
+
+
+def replay_wiki_id(model, obligation):
+    from mwlib.core import wiki
+    me = wiki.MultiEnvironment.__new__(wiki.MultiEnvironment)
+    for wid in ("..", "../x", "a/b", "/abs", "", "ok", "de", "a..b", ".", "...", "x/..", "..\\x", "enwiki-2"):
+        want_ok = bool(wid) and "/" not in wid and ".." not in wid
+        try:
+            me._validate_wiki_id(wid, object())
+            ok = True
+        except wiki.WikiIdValidationError:
+            ok = False
+        except Exception as e:  # noqa: BLE001
+            return True, {"wikiident": wid, "raised": f"{type(e).__name__}: {e}"}, "wiki-id"
+        if ok != want_ok:
+            return True, {"wikiident": wid, "accepted": ok, "must_be_accepted": want_ok,
+                          "consequence": "make_wiki opens a directory outside the extraction directory as a wiki" if ok else "a harmless identifier is refused"}, "wiki-id"
+    return False, {"cases": 13}, None
